@@ -64,6 +64,9 @@ fixed('C05', 'remove_border_labels(0)', "SegmentationImage.remove_border_labels(
 fixed('C05', 'removed deblended labels are dropped', "after remove_label(child) of a deblended source, deblended_labels contained the background label 0")
 # ---- C12
 fixed('C12', 'honours an input group_id', "PSFPhotometry: a group_id column supplied in init_params was overwritten with the source ids (every source fitted alone)")
+# ---- C17 / C18
+fixed('C17', 'centroid_sources no longer', "centroid_sources(error=... or xpeak=/ypeak=) with >= 2 positions: NaN from the second source on (keyword dict reused across sources)")
+fixed('C18', 'make_model_image attaches', "make_model_image: unit-ful model with row 0 off the image raised UnitTypeError (units attached only when i == 0)")
 # ---- C19
 fixed('C19', 'profile normalize/unnormalize', "RadialProfile.normalize(); first read of data_profile afterwards returned raw values; unnormalize() did not restore gaussian_*")
 json.dump({'comment': 'Committed list of genuine defects of astropy/photutils found by the checks. status=known entries are matched by key '
